@@ -568,3 +568,32 @@ add('c07-shape-compared-by-identity', ['C07', 'C03'], 'fire', 'PlateSlicer._tran
     'if frm.shape != (1, 1):', 'if frm.shape is not (1, 1):', 'a tuple display is never the same object')
 add('c16-bake-closes-on-truthiness', ['C16', 'C08'], 'fire', 'Recipe.bake',
     "if self.current_stage != 'all':", 'if self.current_stage:', "the marker 'all' counts as an open stage")
+
+# ------------------------------------------------------------------------------------------------ rules added after round 6
+add('c16-uses-registers-in-bulk', ['C16'], 'fire', 'Recipe.uses',
+    'self.uses(*unpacked)', "for elem in unpacked:\n                if elem.name in self.results:\n                    raise ValueError('in use')\n            self.results.update(((elem.name, deepcopy(elem)) for elem in unpacked))",
+    'two objects with one name inside a batch are both accepted')
+add('c13-row-label-carry-undecremented', ['C13'], 'fire', 'Plate.__init__',
+    "row_num -= 1\n                result.append(chr(ord('A') + row_num % 26))", "result.append(chr(ord('A') + (row_num - 1) % 26))",
+    "row 26 is labelled 'AZ'")
+add('c14-enzyme-mass-per-unit-not-inverted', ['C06', 'C14'], 'fire', 'Substance.enzyme',
+    'substance.specific_activity = 1 / value', 'substance.specific_activity = value', "'0.1 mg/U' is read as 0.1 U/mg")
+add('c12-new-solution-with-source-capacity', ['C12'], 'fire', 'Container.create_solution_from',
+    'new_solution = Container(name)', "new_solution = Container(name, f'{source.max_volume} {config.volume_storage_unit}')",
+    'a small source vial limits the new solution', count=99)
+add('c10-zero-volume-means-empty', ['C10'], 'fire', 'Container.get_concentration',
+    'if numerator == 0:', 'if numerator == 0 or self.volume == 0:', 'zero-volume solids have a mass fraction')
+add('c08-dilute-checks-declared-contents', ['C08'], 'fire', 'Recipe.dilute',
+    "    if not isinstance(solute, Substance):", "    if destination.contents and solute not in destination.contents:\n        raise ValueError('does not contain')\n    if not isinstance(solute, Substance):",
+    'the declaration looks at the state of the declared object')
+add('c15-solvent-container-not-in-objects-used', ['C09', 'C15'], 'fire', 'Recipe.bake',
+    'step.objects_used.add(solvent.name)', 'self.used.add(solvent.name)', 'the step does not list the solvent container')
+add('c07-subslice-extent-unscaled', ['C07', 'C13'], 'fire', 'Slicer._process_sub_slice',
+    'stop = min(start + length * step, stop)', 'stop = min(start + length, stop)', 'a stepped parent is cut short', module=S)
+add('c04-single-value-list-repeated-in-place', ['C04'], 'fire', 'Container.create_solution',
+    '        if len(concentration) != n:', '        if len(concentration) == 1:\n            concentration *= n\n        if len(concentration) != n:',
+    "the caller's list grows")
+add('c19-solute-amounts-read-after-mixing', ['C19'], 'fire', 'Container.create_solution',
+    "        result = Container(name, initial_contents=initial_contents[:-1])\n        contents = []",
+    "        result = Container(name, initial_contents=initial_contents[:-1])\n        solvent0, result = Container.transfer(original_solvent, result, initial_contents[-1][1])\n        contents = []",
+    'the stated amounts include what the solvent container held')
